@@ -116,7 +116,7 @@ def plan(tier):
     return [('S1_nested+list', 1, 'shared'), ('S2_three_threads', 1, 'shared'), ('S3_small_enter_exit', 2, 'all'),
             ('S5_one_scoped_reference_two_depths', 2, 'shared')]
   return [('S1_nested+list', 2, 'shared'), ('S2_three_threads', 1, 'all'), ('S3_small_enter_exit', 3, 'all'),
-          ('S4_errors+nested', 2, 'shared'), ('S1_nested+list', 1, 'all'), ('S5_one_scoped_reference_two_depths', 3, 'shared')]
+          ('S4_errors+nested', 1, 'all'), ('S1_nested+list', 1, 'all'), ('S5_one_scoped_reference_two_depths', 2, 'all')]
 
 
 def make_world(hname):
